@@ -213,7 +213,8 @@ def run_ddsmt(workdir,
               input_bytes=None,
               env_extra=None,
               cmd_override=None,
-              reader=False):
+              reader=False,
+              argv_prefix=None):
     """Run the real ddSMT once.  ``spec``/``cc_spec``: list of rule lines.
     ``launcher``: None (the real executable) or a vlaunch config dict.
     ``entry``: 'bin' (bin/ddsmt) or 'module' (python -m ddsmt).
@@ -277,6 +278,8 @@ def run_ddsmt(workdir,
         argv = [common.PY, os.path.join(common.REPO, 'bin', 'ddsmt')] + args
     if env_extra:
         env.update(env_extra)
+    if argv_prefix:
+        argv = list(argv_prefix) + argv
     in_before = refreader.fnv1a([data.decode('latin-1')])
     t0 = time.time()
     # stdout/stderr go to files, not pipes: if the main process dies (e.g.
